@@ -80,6 +80,32 @@ def gen(rnd, size: int, ops=None):
     return ["ite", gen(rnd, k1, ops), gen(rnd, k2, ops), gen(rnd, max(1, size - k1 - k2), ops)]
 
 
+def gen_nested_ac(rnd):
+    """A chain of one commutative operator whose operands are chains of the other one over shared variables,
+    e.g. t*u + t*v + 2*u — the shape where canonicalising operands and ordering them interact."""
+    outer = rnd.choice(["add", "mul"])
+    inner = "mul" if outer == "add" else "add"
+    terms = []
+    for _ in range(rnd.choice([2, 2, 3])):
+        a, b = rnd.sample(VARS, 2)
+        second = ["var", b] if rnd.random() < 0.75 else ["const", rnd.randrange(0, 4)]
+        pair = [["var", a], second]
+        rnd.shuffle(pair)
+        terms.append(["bin", inner, pair[0], pair[1]])
+    return build_chain(terms, outer, rnd)
+
+
+def inner_rewrite(e, rnd, comm=("add", "mul")):
+    """Re-order operands inside the operands of the outermost + / * chain, keeping the outer order as written."""
+    if e[0] == "bin" and e[1] in comm:
+        terms = [ac_rewrite(t, rnd, comm) for t in chain_terms(e, e[1])]
+        out = terms[0]
+        for t in terms[1:]:
+            out = ["bin", e[1], out, t]
+        return out
+    return ac_rewrite(e, rnd, comm)
+
+
 def children_idx(e):
     return {"var": [], "const": [], "bin": [2, 3], "neg": [1], "call1": [2], "call2": [2, 3], "cmp": [2, 3], "ite": [1, 2, 3]}[e[0]]
 
